@@ -53,6 +53,8 @@ pub enum ObsOp {
     SubscribeReset(u8),
     SubClone(u8),
     SubCloneReset(u8),
+    /// `dst.clone_from(&src)` between two live subscribers of the same observable
+    SubCloneFrom { dst: u8, src: u8 },
     SubReset(u8),
     SubGet(u8),
     SubRead { sub: u8, hold: bool },
@@ -725,6 +727,31 @@ impl<F: Flavor> W<F> {
                 self.f.sub_clones += 1;
                 Ok(())
             }
+            ObsOp::SubCloneFrom { dst, src } => {
+                let live = self.live_subs();
+                let (Some(d), Some(sr)) = (pick(dst, &live), pick(src, &live)) else { return Ok(()) };
+                if d == sr || self.sub_has_guard(d) {
+                    return Ok(());
+                }
+                let c = F::sub_clone(self.subs[sr].as_ref().unwrap());
+                // Clone::clone_from, not `*dst = src.clone()`: the type may override it
+                let srcp: *const F::Sub = &**self.subs[sr].as_ref().unwrap();
+                Clone::clone_from(&mut **self.subs[d].as_mut().unwrap(), unsafe { &*srcp });
+                drop(c);
+                let (unseen, since) = {
+                    let m = self.msubs[sr].as_ref().unwrap();
+                    (m.unseen, m.updates_since)
+                };
+                let md = self.msubs[d].as_mut().unwrap();
+                md.unseen = unseen;
+                md.updates_since = since;
+                md.last_was_get = false;
+                // the copy's readiness no longer depends on wake-ups owed to its old self
+                md.last_pending = None;
+                self.f.sub_clones += 1;
+                self.rep.classes.push("subscriber_clone_from");
+                Ok(())
+            }
             ObsOp::SubReset(sub) => {
                 let Some(si) = pick(sub, &self.live_subs()) else { return Ok(()) };
                 if self.sub_has_guard(si) {
@@ -1158,6 +1185,7 @@ pub fn op(g: &ObsGen) -> BoxedStrategy<ObsOp> {
             2 => ix().prop_map(ObsOp::SubscribeReset),
             2 => ix().prop_map(ObsOp::SubClone),
             1 => ix().prop_map(ObsOp::SubCloneReset),
+            1 => (ix(), ix()).prop_map(|(dst, src)| ObsOp::SubCloneFrom { dst, src }),
             1 => ix().prop_map(ObsOp::SubReset),
             2 => ix().prop_map(ObsOp::SubGet),
             1 => (ix(), any::<bool>()).prop_map(|(sub, hold)| ObsOp::SubRead { sub, hold }),
